@@ -75,6 +75,26 @@ touched the path (old file byte-identical, no write-open completed) has left no 
 judged.  A completed overwrite loads as requested.  Tie: after a KILL the remains are not a readable HDF5 file
 (hypothesis `unparsable junk` of C19_atclose / C19_complete, reported as a broken obligation).
 
+Dimension SOURCE CONTAINER (field `src` of a collection; kinds `crash` and `over_kill`) -- WHAT KIND OF OBJECT THE WRITER TAKES THE
+SIGNATURES FROM.  dump_signatures accepts any AbstractSignatureArray, and HDF5Signatures.create looks at the type of what it is given (a
+SignatureArray is written whole, a ReferenceSignatures brings its ids and metadata): a writer may treat one kind of source differently -- copy
+the attributes of a source that is itself an open signature file, the marker among them, BEFORE the datasets -- and then the order of the
+storage calls, and with it what an interrupted write leaves, depends on the source.  So every death mode is enumerated again with the requested
+collection held by (build_source):
+  view     a slice (for a SignatureArray a VIEW into the values of a larger array), an integer-array index, a mask of a larger SignatureArray /
+           SignatureList, plain or under AnnotatedSignatures
+  hdf5     an OPEN signature file: load_signatures(file), or HDF5Signatures(group) of the root group / of a sub-group; integer, string or
+           default ids; the file filtered (gzip, lzf) or not, independently of the filter of the write (re-compressing); FOREIGN attributes
+           (strings, integers, arrays, names next to the format's own), datasets and sub-groups in its group; directly, or under one or two
+           AnnotatedSignatures that carry OTHER ids and metadata than the file
+  custom   a user subclass of AbstractSignatureArray (only __len__ / __getitem__ / kmerspec / dtype), one that is a ReferenceSignatures itself,
+           AnnotatedSignatures around one
+The case describes the REQUESTED collection (what the model is asked about, what a loadable file must hold); the source file is made from that
+description by the harness process (source_file) and opened in the child before the hooks are installed.  Checked as for every other case: (b) what is left is refused or is exactly the
+requested collection; (a1) the observed calls are the model's dump_ops (marker LAST) whatever the source -- a writer that copies anything else
+from the source breaks this tie even where no death point exposes it.  (`gambit signatures create` always writes the SignatureList it has
+just computed: kind cli_kill has no such dimension.)
+
 Coverage (streams of generate; quick / thorough):
   stream                              kind       writer            path before      death mode       death points                    payload
   every-boundary                      crash      dump_signatures   fresh            exit             every boundary + completed      small, 35 / 135 collections
@@ -97,13 +117,23 @@ Coverage (streams of generate; quick / thorough):
   cli-kill-overwrite-every-point      cli_kill   signatures create coll             sigkill          every calc + store point        small
   cli-{sigint,raise}-overwrite-every-point  cli_kill  signatures create  coll      SIGINT, raise (thorough: + SIGTERM)   every store point (thorough: + calc points)
   cli-kill-overwrite-random           cli_kill   signatures create all but none     any of the five  3 per command                   small
+  source-container-every-call-raise   crash      dump_signatures   fresh            raise (5 types)  every storage call of the longer write path + 1   small; 17 SOURCE CONTAINERS (5 view, 9 hdf5, 3 custom)
+  source-container-source-exception   crash      dump_signatures   fresh            source (5 types) every 3rd + the last two / every access + 1    the same 17 sources
+  source-container-every-boundary     crash      dump_signatures   fresh            exit             completed + every 5th / every boundary   the same 17 sources
+  overwrite-source-container-every-point  over_kill  dump_signatures  1 of / each of: coll x3, same   raise (5 types), SIGINT, SIGTERM, exit, sigkill: rotating / each
+                                                                                                     every 3rd / every store point   the same 17 sources
+  overwrite-source-container-source-exception  over_kill  dump_signatures  the same  source           every 3rd / every access + 1    the same 17 sources
+  source-container-random             crash, over_kill  dump_signatures  fresh; coll, same, truncated, raw, hdf   any    7 per collection, 10 / 200 random collections in random sources
+  source-container-large-payload      over_kill / + crash  dump_signatures  fresh, coll   raise, SIGINT  3 in the per-signature phase / every point   multi-megabyte open signature file re-compressed
   corpus                              (runs first) cli kills during/after the calculation, the Eager witness, an overwrite of an
                                       integer-id collection killed in the per-signature phase (dump_signatures and the command);
                                       EXCEPTION DEATHS in the per-signature loop: the Coq witness of C19_marker_first_raised_refuted
                                       (Ctrl-C before the last per-signature write), disk full one call earlier, Ctrl-C raised by the
                                       signature source (the reproduction /var/tmp/c19probe of the defect), MemoryError of the source on
                                       the whole-array path, SystemExit / SIGINT while overwriting a previous version, Ctrl-C and
-                                      SystemExit in the final write of the command"""
+                                      SystemExit in the final write of the command; SOURCE CONTAINER: an open signature file (string ids, foreign
+                                      attributes and a foreign dataset) re-compressed, Ctrl-C in the per-signature loop; a gzip-filtered open
+                                      signature file re-saved over the previous version of the set, SIGINT in the per-signature phase"""
 import json
 import os
 import shutil
@@ -130,6 +160,12 @@ RULE = ('crash: (collection, boundary n, death mode) -> writer killed after n st
         'bytes changed) the path is absent, refused by load_signatures, or loads exactly as requested -- never as the old collection or a '
         'mixture; a writer that died before touching the path is counted, not judged; non-trivial: the path held the complete file of '
         'a different collection and the writer had started on it when it was killed (or completed)'
+        ' | source container (field src of the collection; crash and over_kill, every death mode, fresh and occupied path): the requested collection is '
+        'handed to dump_signatures as a slice / integer-array index / mask of a larger SignatureArray or SignatureList, as an OPEN signature file '
+        '(load_signatures(file) or HDF5Signatures(group), root or sub-group, integer / string / default ids, filtered or not, with foreign attributes, '
+        'datasets and groups), as AnnotatedSignatures (one or two) over any of these carrying other ids and metadata than the file, or as a user subclass '
+        'of AbstractSignatureArray / ReferenceSignatures -> same judgement (refused, or exactly the requested collection) and the same model call '
+        'sequence (marker last) whatever the source'
         ' | death modes of over_kill / cli_kill: os._exit, SIGKILL, an exception raised inside the hook of the j-th event, a real SIGINT, a real '
         'SIGTERM, (over_kill) an exception of the signature source')
 TRUSTED = ['libhdf5 / OS durability: nothing parseable reaches the disk before close (policy AtClose of '
@@ -152,14 +188,23 @@ TRUSTED = ['libhdf5 / OS durability: nothing parseable reaches the disk before c
            'the harness process (the fresh-path round trip is C12\'s and the crash stream\'s subject); "the writer has started on the path" '
            'is read off the completed h5py.File(path, mode != r) calls of the child and a byte comparison (SHA-1) of the path before '
            'and after; the added h5py hooks (Group.__delitem__, AttributeManager.__delitem__, Group.create_group, Dataset.resize, '
-           'File.flush) only add kill points for writers that use them'] + c12.TRUSTED[:1]
+           'File.flush) only add kill points for writers that use them',
+           'source containers: a signature file that serves as the SOURCE of a write is produced in the harness process (no hooks there; the child '
+           'opens it before it installs the counting hooks) by the implementation\'s own dump_signatures / HDF5Signatures.create on a fresh path (the fresh-path round trip is C12\'s '
+           'subject) from the harness\'s description, then given foreign attributes / datasets / groups with h5py and opened read-only; what the '
+           'output must hold is the harness\'s description, never something read back from that file; slices / indexes are made with the '
+           'containers\' own __getitem__; the user subclasses are defined by the harness (user_classes); arm_source replaces the class of the '
+           'innermost wrapper-or-container by a counting subclass of itself (isinstance relations are unchanged)'] + c12.TRUSTED[:1]
 ASSUMPTIONS = ['the writer dies between two storage-library calls (a kill inside libhdf5 while it writes raw '
                'chunk data, and an exception raised half-way through one h5py call, are not enumerated)',
                'no explicit flush and no SWMR mode: HDF5Signatures.create / dump_signatures_hdf5 as in the repository',
                'cli_kill / over_kill: an older file left in place, byte for byte, by a writer that died before touching the output path '
                'is not a partial file (such kill points are counted, not judged); kills are placed at calc events and storage-library '
                'call boundaries of the writer\'s main process, not at arbitrary instructions; the pre-existing contents are the six '
-               'forms listed in the module docstring (no symbolic links, no read-only or concurrently open files)'] + c12.ASSUMPTIONS[:2]
+               'forms listed in the module docstring (no symbolic links, no read-only or concurrently open files)',
+               'source containers: the forms listed under SOURCE CONTAINER in the module docstring (an open signature file as the source is a '
+               'different file from the output path; writing a file onto itself is not enumerated); `gambit signatures create` always writes '
+               'the SignatureList it computed, so cli_kill has no source dimension'] + c12.ASSUMPTIONS[:2]
 BATCH = 40
 SHRINK = False
 
@@ -225,7 +270,150 @@ def arm_source(obj, at, exc, fired):
 	inner.__class__ = Source
 
 
-def child_main(case, path, n, logfd, short, death=None):
+# ---- the SOURCE of the write (dimension SOURCE CONTAINER: field `src` of a collection) ---------------------------------------
+
+SRC_FORMS = ('view', 'hdf5', 'custom')
+_user_classes = []
+
+
+def user_classes():
+	"""a user's own signature containers: a minimal subclass of AbstractSignatureArray (only what the abstract class demands: __len__,
+	__getitem__, kmerspec, dtype; sizes() / sizeof() are the inherited defaults) and one that is a ReferenceSignatures as well"""
+	if not _user_classes:
+		import numpy as np
+		from gambit.sigs.base import AbstractSignatureArray, ReferenceSignatures
+
+		class UserSignatures(AbstractSignatureArray):
+			def __init__(self, arrs, kmerspec, dtype):
+				self._arrs, self.kmerspec, self.dtype = list(arrs), kmerspec, np.dtype(dtype)
+
+			def __len__(self):
+				return len(self._arrs)
+
+			def __getitem__(self, i):
+				if isinstance(i, (int, np.integer)):
+					return self._arrs[i]
+				if isinstance(i, slice):
+					return UserSignatures(self._arrs[i], self.kmerspec, self.dtype)
+				return UserSignatures([self._arrs[int(j)] for j in np.arange(len(self))[i]], self.kmerspec, self.dtype)
+
+		class UserReference(UserSignatures, ReferenceSignatures):
+			def __init__(self, arrs, kmerspec, dtype, ids, meta):
+				UserSignatures.__init__(self, arrs, kmerspec, dtype)
+				self.ids, self.meta = ids, meta
+
+		_user_classes.extend([UserSignatures, UserReference])
+	return _user_classes
+
+
+def build_source(coll, srcfile=None):
+	"""the object handed to dump_signatures (srcfile: the signature file made by source_file for an hdf5 source).  `coll` describes the
+	REQUESTED collection (k, prefix, dtype, sigs, ids, meta; `container` = the plain container with the same write path and the same carrying
+	of ids / metadata: what the model is asked about); its optional field `src` says in what kind of container the writer finds it:
+	  view    {lead, trail, how}   the base SignatureArray / SignatureList holds lead + sigs + trail and is sliced (how = slice: for a
+	                               SignatureArray a VIEW of the larger values array), indexed with an integer array or a mask
+	  hdf5    {comp, group, open, foreign, wrap, file_ids, file_meta}
+	                               an OPEN signature file: written first (source_file: by the implementation's own dump_signatures /
+	                               HDF5Signatures.create to a fresh path, with filter `comp`, in the root group or the sub-group `group`), given
+	                               foreign attributes / datasets / groups (h5py), opened by load_signatures (open = load) or HDF5Signatures(group)
+	                               (open = class).  wrap = null: the file holds the requested ids and metadata; wrap = annot / annot_annot:
+	                               the file holds OTHER ids and metadata (file_ids, file_meta) and AnnotatedSignatures wrappers around the
+	                               open file carry the requested ones
+	  custom  {ref, wrap}          a user subclass of AbstractSignatureArray; ref: it is a ReferenceSignatures itself (carries ids / metadata);
+	                               wrap = annot: AnnotatedSignatures around it
+	No src: c12.build (SignatureArray, SignatureList, AnnotatedSignatures over either)."""
+	import numpy as np
+	src = coll.get('src')
+	plain = {f: v for f, v in coll.items() if f != 'src'}
+	if not src:
+		return c12.build(plain)
+	from gambit.sigs import AnnotatedSignatures, load_signatures
+	cont, form = coll['container'], src['form']
+	annot = cont.startswith('annot')
+
+	def wrapped(inner, levels=1):
+		"""AnnotatedSignatures with the requested ids / metadata (as c12.build makes them) around `inner`"""
+		w = c12.build(dict(plain, container='annot_list'))
+		w.signatures = inner
+		for _ in range(levels - 1):
+			w = AnnotatedSignatures(w, w.ids, w.meta)
+		return w
+
+	if form == 'view':
+		lead, trail, n = src.get('lead', []), src.get('trail', []), len(coll['sigs'])
+		big = c12.build(dict(plain, sigs=lead + coll['sigs'] + trail, container='array' if cont.endswith('array') else 'list'))
+		a, how = len(lead), src.get('how', 'slice')
+		if how == 'slice':
+			inner = big[a:a + n]
+		elif how == 'index':
+			inner = big[np.arange(a, a + n)]
+		else:
+			inner = big[np.array([a <= i < a + n for i in range(len(big))], dtype=bool)]
+		return wrapped(inner) if annot else inner
+	if form == 'custom':
+		UserSignatures, UserReference = user_classes()
+		ks, dt = c12.build(dict(plain, container='list')).kmerspec, np.dtype(coll['dtype'])
+		arrs = [np.array(s, dtype=dt) for s in coll['sigs']]
+		if src.get('ref'):
+			w = c12.build(dict(plain, container='annot_list'))
+			return UserReference(arrs, ks, dt, w.ids, w.meta)
+		inner = UserSignatures(arrs, ks, dt)
+		return wrapped(inner) if annot else inner
+	if form != 'hdf5' or not annot:
+		raise ValueError(f'source {src} of a {cont}')
+	import h5py
+	from gambit.sigs.hdf5 import HDF5Signatures
+	wrap, group = src.get('wrap'), src.get('group')
+	if src.get('open', 'load') == 'load' and not group:
+		inner = load_signatures(srcfile)
+	else:
+		f = h5py.File(srcfile, 'r')
+		inner = HDF5Signatures(f[group] if group else f)
+	return wrapped(inner, 2 if wrap == 'annot_annot' else 1) if wrap else inner
+
+
+def source_file(coll, key, cache):
+	"""the signature file an hdf5 source is the open form of (None for the other sources): made in the harness process -- no counting hooks
+	here -- once per distinct collection of a batch (`key`), from the harness's description of the requested collection (wrap: of the OTHER
+	ids / metadata the file holds); the children open it read-only; the batch function removes it"""
+	src = coll.get('src')
+	if not src or src['form'] != 'hdf5':
+		return None
+	if key in cache:
+		return cache[key]
+	import numpy as np
+	import h5py
+	from gambit.sigs import dump_signatures
+	from gambit.sigs.hdf5 import HDF5Signatures
+	path = c12.tmp('src') + '.gs'
+	content = dict({f: v for f, v in coll.items() if f != 'src'}, container='annot_list', compression=None)
+	if src.get('wrap'):
+		content.update(ids=src.get('file_ids'), meta=src.get('file_meta'))
+	kw = {} if src.get('comp') is None else dict(compression=src['comp'])
+	group = src.get('group')
+	if group:
+		with h5py.File(path, 'w') as f:
+			HDF5Signatures.create(f.create_group(group), c12.build(content), **kw)
+	else:
+		dump_signatures(path, c12.build(content), **kw)
+	foreign = src.get('foreign') or {}
+	if foreign:
+		with h5py.File(path, 'r+') as f:
+			g = f[group] if group else f
+			for name, v in foreign.get('attrs', {}).items():
+				g.attrs[name] = np.array(v) if isinstance(v, list) else v
+			for name, v in foreign.get('dsets', {}).items():
+				if v and isinstance(v[0], str):
+					g.create_dataset(name, data=np.array(v, dtype=object), dtype=h5py.string_dtype())
+				else:
+					g.create_dataset(name, data=np.array(v, dtype='i8'))
+			for name in foreign.get('groups', []):
+				g.create_group(name).attrs['gambit_signatures_version'] = 1
+	cache[key] = path
+	return path
+
+
+def child_main(case, path, n, logfd, short, death=None, srcfile=None):
 	"""runs in the forked child: patch, write, die at boundary n -- by os._exit, or (death = {mode: raise, exc}) by raising
 	exc inside the hook of storage call n, or (death = {mode: source, at, exc}) by an exception of the signature source"""
 	import numpy as np
@@ -234,6 +422,8 @@ def child_main(case, path, n, logfd, short, death=None):
 	done = [0]
 	fired = [False]
 	mode = death['mode'] if death else 'exit'
+	# the source is made BEFORE the hooks are installed (an open signature file as the source is opened here: not a call of the write)
+	obj = build_source(case, srcfile)
 	oa, oc, od, ox = (h5py.AttributeManager.__setitem__, h5py.Group.create_dataset, h5py.Dataset.__setitem__, h5py.File.__exit__)
 	other = {}
 
@@ -261,7 +451,10 @@ def child_main(case, path, n, logfd, short, death=None):
 		elif isinstance(value, str):
 			v = [1, c12.S(value)]
 		else:
-			v = [0, int(value)]
+			try:
+				v = [0, int(value)]
+			except (TypeError, ValueError):
+				v = [9, repr(value)[:80]]   # not a value the writer of the unchanged code stores (the call sequence then differs from the model's)
 		log([0, c12.key(c12.AK, name, other), v])
 		return r
 
@@ -305,7 +498,6 @@ def child_main(case, path, n, logfd, short, death=None):
 	h5py.Group.create_dataset = pc
 	h5py.Dataset.__setitem__ = pd
 	h5py.File.__exit__ = px
-	obj = c12.build(case)
 	if mode == 'source':
 		arm_source(obj, death['at'], death['exc'], fired)
 	kw = {} if case.get('compression') is None else dict(compression=case['compression'])
@@ -320,14 +512,14 @@ def child_main(case, path, n, logfd, short, death=None):
 	os._exit(0)
 
 
-def run_writer(case, path, n, short, death=None):
+def run_writer(case, path, n, short, death=None, srcfile=None):
 	"""-> (exit code of the child, list of observed calls)"""
 	logpath = path + '.log'
 	logfd = os.open(logpath, os.O_WRONLY | os.O_CREAT | os.O_TRUNC, 0o600)
 	pid = os.fork()
 	if pid == 0:
 		try:
-			child_main(case, path, n, logfd, short, death)
+			child_main(case, path, n, logfd, short, death, srcfile)
 		except BaseException as e:
 			try:
 				os.write(logfd, (json.dumps(['EXC', repr(e)]) + '\n').encode())
@@ -362,10 +554,12 @@ def k_crash(ctx, cases):
 	ops = {key: ops_ans[2 * i] for i, key in enumerate(colls)} if ops_ans else {}
 	ops_v0 = {key: ops_ans[2 * i + 1] for i, key in enumerate(colls)} if ops_ans else {}
 	results = []
+	srcs = {}
 	for c in cases:
 		coll, n, short = full[json.dumps(c['coll'], sort_keys=True)], c.get('n'), bool(c.get('short'))
 		path = c12.tmp('cr') + '.gs'
-		code, calls = run_writer(coll, path, n, short, c.get('death'))
+		key = json.dumps(c['coll'], sort_keys=True)
+		code, calls = run_writer(coll, path, n, short, c.get('death'), source_file(coll, key, srcs))
 		raised = calls.pop()[1] if calls and calls[-1][0] == 'RAISED' else None
 		exists = os.path.exists(path)
 		head = b''
@@ -376,6 +570,8 @@ def k_crash(ctx, cases):
 		got = load_remains(load_signatures, path, coll, None, None, None)[0]
 		results.append((c, code, calls, cl, head, got, raised))
 		c12._rm(path)
+	for p in srcs.values():
+		c12._rm(p)
 	reqs, at = [], []
 	tiny = dict(k=5, prefix='AT', dtype='u2', sigs=[[1]], container='list', compression=None, ids=None, meta=None)
 	for c, code, calls, cl, head, got, raised in results:
@@ -998,15 +1194,15 @@ def load_remains(load_signatures, path, coll, old, before, after):
 		return ('ok', bad, first), note
 
 
-def over_child_main(coll, path, at, kill, logfd, exc=None, source=None):
+def over_child_main(coll, path, at, kill, logfd, exc=None, source=None, srcfile=None):
 	"""runs in the forked child: count the storage-library calls of one dump_signatures(path, x), die before the j-th
 	(or, source = [i, exc]: the signature source raises exc at its i-th access)"""
 	from gambit.sigs import dump_signatures
 	signal.signal(signal.SIGINT, signal.default_int_handler)
 	signal.signal(signal.SIGTERM, signal.SIG_DFL)
+	obj = build_source(coll, srcfile)   # before the hooks: an open signature file as the source is opened here, not by the write
 	gate, log, hooked, fired = event_hooks(at, kill, logfd, ('store',), exc)
 	install_store_hooks(hooked)
-	obj = c12.build(coll)
 	if source is not None:
 		arm_source(obj, source[0], source[1], fired)
 	try:
@@ -1019,13 +1215,13 @@ def over_child_main(coll, path, at, kill, logfd, exc=None, source=None):
 	os._exit(0)
 
 
-def run_over_writer(coll, path, at, kill, exc=None, source=None):
+def run_over_writer(coll, path, at, kill, exc=None, source=None, srcfile=None):
 	logpath = path + '.log'
 	logfd = os.open(logpath, os.O_WRONLY | os.O_CREAT | os.O_TRUNC, 0o600)
 	pid = os.fork()
 	if pid == 0:
 		try:
-			over_child_main(coll, path, at, kill, logfd, exc, source)
+			over_child_main(coll, path, at, kill, logfd, exc, source, srcfile)
 		except BaseException as e:
 			try:
 				os.write(logfd, (json.dumps(['EXC', repr(e)]) + '\n').encode())
@@ -1052,7 +1248,8 @@ def k_over_kill(ctx, cases):
 			make_pre(path, pre, coll, cache)
 			before = path_state(path)
 			source = c.get('source')
-			code, events = run_over_writer(coll, path, None if at is None else ['store', at], kill, c.get('exc'), source)
+			srcfile = source_file(coll, 'src:' + json.dumps(c['coll'], sort_keys=True), cache)
+			code, events = run_over_writer(coll, path, None if at is None else ['store', at], kill, c.get('exc'), source, srcfile)
 			after = path_state(path)
 			killed = died_as_told(code, 'raise' if source else kill, events)
 			how = (f'interrupted by {source[1]} raised by the signature source at its access {source[0]}' if source else
@@ -1114,6 +1311,11 @@ def n_accesses(coll):
 	for the per-signature path each signature is read once for sizes() and once in the loop, a plain SignatureList is also asked
 	sizes() (the generators add one point beyond: a point that is never reached is a completed write, and is judged as one)"""
 	n = len(coll['sigs'])
+	src = coll.get('src') or {}
+	if src.get('form') == 'hdf5' and not src.get('wrap'):
+		return n + 1   # sizes() of an open signature file is one read of its bounds
+	if src.get('form') == 'custom' and (src.get('ref') or not coll['container'].startswith('annot')):
+		return 2 * n + 1
 	return {'array': 3, 'list': 2 * n + 1}.get(coll['container'], 2 * n)
 
 
@@ -1181,9 +1383,163 @@ def generate(ctx):
 		for n in ([total // 2, total - 2] if ctx.quick else range(total)):
 			ctx.count('stream:large-payload-raise')
 			yield 'crash', dict(coll=coll, n=n, short=True, death=dict(mode='raise', exc=EXCS[n % len(EXCS)]))
+	yield from gen_sources(ctx, rng)
 	yield from gen_cli_kill(ctx, rng)
 	yield from gen_over_kill(ctx, rng)
 	yield from gen_cli_over(ctx, rng)
+
+
+# ---- the container the writer takes the signatures from ---------------------------------------------------------------
+
+def rforeign(rng):
+	"""foreign content of the group of a signature file: attributes (strings, integers, arrays; names next to the format's own),
+	datasets, sub-groups (one of them carrying a marker of its own)"""
+	attrs = {'annotated_by': c12.rstr(rng) or 'tool', 'revision': rng.randrange(100), 'weights': [rng.randrange(9) for _ in range(rng.randint(1, 4))],
+	         'gambit_signatures_checked': 1, 'kmerspec_note': 'k', 'Extra': '{}', 'ID': 'x'}
+	names = rng.sample(sorted(attrs), rng.randint(1, len(attrs)))
+	return dict(attrs={a: attrs[a] for a in names},
+	            dsets=rng.choice([{}, {'taxa': [rng.randrange(50) for _ in range(rng.randint(1, 6))]}, {'labels': ['a', 'é'], 'ids_old': [1, 2, 3]}]),
+	            groups=rng.choice([[], [], ['backup'], ['previous', 'notes']]))
+
+
+def rsource(rng, annot, n):
+	"""a random source container for a collection of n signatures -> (container, src)"""
+	pad = lambda: [sorted(rng.sample(range(1024), rng.randint(0, 4))) for _ in range(rng.randint(0, 2))]
+	form = rng.choices(SRC_FORMS, (3, 5, 3))[0] if annot else rng.choice(('view', 'custom'))
+	if form == 'view':
+		return (rng.choice(('annot_array', 'annot_list')) if annot else rng.choice(('array', 'list')),
+		        dict(form='view', lead=pad(), trail=pad(), how=rng.choice(('slice', 'slice', 'index', 'mask'))))
+	if form == 'custom':
+		ref = annot and rng.random() < 0.5
+		return 'annot_list' if annot else 'list', dict(form='custom', ref=ref)
+	group = rng.choice([None, None, 'sigs', 'a/b'])
+	wrap = rng.choice([None, None, 'annot', 'annot_annot'])
+	src = dict(form='hdf5', comp=rng.choice(c12.COMPRESSIONS), group=group, open='class' if group else rng.choice(('load', 'load', 'class')),
+	           foreign=rforeign(rng) if rng.random() < 0.6 else None, wrap=wrap)
+	if wrap:
+		src.update(file_ids=c12.rids(rng, n), file_meta=c12.rmeta(rng))
+	return 'annot_list', src
+
+
+def gen_sources(ctx, rng):
+	"""dimension SOURCE CONTAINER: every death mode of dump_signatures (crash: exit at every boundary, an exception inside every storage
+	call, an exception of the source at every access; over_kill: the same plus real signals, over an occupied path) with the signatures
+	coming from each kind of container a caller can hand to dump_signatures"""
+	sigs = [[1, 5, 900], [], [7], [2, 3], [11, 12, 13, 14], [1023]]
+	n = len(sigs)
+	base = dict(k=5, prefix='AT', dtype='u2', sigs=sigs)
+	sid = dict(kind='str', vals=['g0', 'g1', 'é2', '漢3', 'g4', 'g5'], **{'as': 'list'})
+	iid = dict(kind='int', dtype='i8', vals=[200 + 3 * i for i in range(n)])
+	i4 = dict(kind='int', dtype='i4', vals=[7 - i for i in range(n)])
+	meta = dict(id='refs/é', name='Reference set', id_attr='key', version='1.1', description=None, extra={'author': 'x', 'n': [1, None]})
+	fmeta = dict(id='in-the-file', name='what the file says', id_attr=None, version='0.9', description='two\nlines', extra={'made': 'before'})
+	foreign = dict(attrs={'annotated_by': 'another tool', 'revision': 3, 'weights': [1, 2, 3], 'gambit_signatures_checked': 1},
+	               dsets={'taxa': [5, 6, 7, 8, 9, 10], 'labels': ['a', 'é']}, groups=['previous'])
+	lead, trail = [[3, 4], []], [[9]]
+	A = lambda **kw: dict(base, **kw)
+	sources = [
+		A(container='array', compression=None, ids=None, meta=None, src=dict(form='view', lead=lead, trail=trail, how='slice')),
+		A(container='annot_array', compression='gzip', ids=sid, meta=meta, src=dict(form='view', lead=lead, trail=[], how='slice')),
+		A(container='list', compression='lzf', ids=None, meta=None, src=dict(form='view', lead=[], trail=trail, how='slice')),
+		A(container='annot_list', compression=None, ids=iid, meta=meta, src=dict(form='view', lead=lead, trail=trail, how='index')),
+		A(container='annot_array', compression=None, ids=i4, meta=None, src=dict(form='view', lead=lead, trail=trail, how='mask')),
+		A(container='annot_list', compression=None, ids=iid, meta=meta, src=dict(form='hdf5', comp=None, open='load')),
+		A(container='annot_list', compression='gzip', ids=sid, meta=meta, src=dict(form='hdf5', comp=None, open='load', foreign=foreign)),
+		A(container='annot_list', compression=None, ids=sid, meta=None, src=dict(form='hdf5', comp='gzip', open='load', foreign=dict(attrs={'note': 'n'}))),
+		A(container='annot_list', compression='lzf', ids=None, meta=meta, src=dict(form='hdf5', comp='lzf', open='class')),
+		A(container='annot_list', compression=None, ids=i4, meta=meta, src=dict(form='hdf5', comp=None, group='sigs', open='class', foreign=foreign)),
+		A(container='annot_list', compression='gzip', ids=sid, meta=meta, src=dict(form='hdf5', comp='gzip', group='sets/2024', open='class')),
+		A(container='annot_list', compression=None, ids=sid, meta=meta, src=dict(form='hdf5', comp=None, open='load', wrap='annot', file_ids=iid, file_meta=fmeta)),
+		A(container='annot_list', compression='gzip', ids=iid, meta=None, src=dict(form='hdf5', comp='lzf', group='sigs', open='class', foreign=foreign,
+		                                                                             wrap='annot', file_ids=sid, file_meta=fmeta)),
+		A(container='annot_list', compression=None, ids=None, meta=meta, src=dict(form='hdf5', comp=None, open='load', foreign=foreign,
+		                                                                          wrap='annot_annot', file_ids=None, file_meta=None)),
+		A(container='list', compression=None, ids=None, meta=None, src=dict(form='custom')),
+		A(container='annot_list', compression='gzip', ids=sid, meta=meta, src=dict(form='custom', ref=True)),
+		A(container='annot_list', compression=None, ids=iid, meta=fmeta, src=dict(form='custom')),
+	]
+	# ---- fresh path: an exception inside EVERY storage call (types rotate), the source raising at EVERY access (quick: every third and the last two), os._exit at every
+	# boundary (quick: the completed write -- the whole call sequence against the model -- and every fifth boundary, offset by source)
+	# (a writer may choose ANOTHER write path for a source than the model expects -- a view written signature by signature: the points run
+	# up to the length of the longer path; a point beyond the last call of the write is a completed write, judged as one)
+	longest = 14 + n
+	for si, coll in enumerate(sources):
+		total = n_calls(coll)
+		for j in range(max(total, longest) + 1):
+			ctx.count('stream:source-container-every-call-raise')
+			yield 'crash', dict(coll=coll, n=j, death=dict(mode='raise', exc=EXCS[(si + j) % len(EXCS)]))
+		for i in range(n_accesses(coll) + 1):
+			if not ctx.quick or i % 3 == si % 3 or i >= n_accesses(coll) - 1:
+				ctx.count('stream:source-container-source-exception')
+				yield 'crash', dict(coll=coll, death=dict(mode='source', at=i, exc=EXCS[(si + i) % len(EXCS)]))
+		for j in [None] + [j for j in range(total + 1) if not ctx.quick or j % 5 == si % 5]:
+			ctx.count('stream:source-container-every-boundary')
+			yield 'crash', dict(coll=coll, n=j)
+	# ---- occupied path (the previous version of the set: another collection; the same collection): every store point from the open to the
+	# close; thorough: every kind of death at every point over every one of the four; quick: one of the four per source, every third point
+	# (offset by source: every point is met by five or six sources), the kind of death rotating over points and sources (raise of each
+	# type / SIGINT / SIGTERM / os._exit / SIGKILL)
+	rs = lambda m: [sorted(rng.sample(range(1024), rng.randint(1, 6))) for _ in range(m)]
+	pres = [dict(form='coll', coll=dict(base, sigs=rs(4), container='annot_list', compression=None, ids=dict(kind='int', dtype='i8', vals=[100, 101, 102, 103]), meta=fmeta)),
+	        dict(form='same'),
+	        dict(form='coll', coll=dict(base, sigs=rs(9), container='annot_array', compression='gzip', ids=dict(kind='str', vals=[f'old{i}' for i in range(9)], **{'as': 'list'}), meta=fmeta)),
+	        dict(form='coll', coll=dict(base, sigs=rs(6), container='list', compression=None, ids=None, meta=None))]
+	kinds = ('raise', 'sigint', 'raise', 'sigterm', 'raise', 'exit', 'raise', 'sigkill')
+	for si, coll in enumerate(sources):
+		pts = [at for at in over_points(coll, 1 + max(0, longest - n_calls(coll))) if at is not None]
+		for pi, pre in enumerate(pres if not ctx.quick else [pres[si % len(pres)]]):
+			for at in pts:
+				if ctx.quick and at % 3 != si % 3:
+					continue
+				for kill in (sorted(set(kinds)) if not ctx.quick else [kinds[(at // 3 + si) % len(kinds)]]):
+					ctx.count('stream:overwrite-source-container-every-point')
+					yield 'over_kill', dict(pre=pre, coll=coll, at=at, kill=kill, **(dict(exc=EXCS[(si + pi + at // 2) % len(EXCS)]) if kill == 'raise' else {}))
+			for i in range(n_accesses(coll) + 1):
+				if not ctx.quick or i % 3 == si % 3:
+					ctx.count('stream:overwrite-source-container-source-exception')
+					yield 'over_kill', dict(pre=pre, coll=coll, at=None, kill='raise', source=[i, EXCS[(si + pi + i) % len(EXCS)]])
+	ctx.extra['exhaustive_scope'] += ('; source containers: for each of the listed sources (slice / index / mask of a SignatureArray and a SignatureList, an open '
+	                                 'signature file: loaded or in a sub-group, with foreign attributes / datasets, filtered or not, under one or two '
+	                                 'AnnotatedSignatures; user subclasses of AbstractSignatureArray) an exception inside every storage call of the write to a '
+	                                 'fresh path, and every store point of the write over an occupied path')
+	# ---- random collections in random source containers, a few death points of a random kind each, fresh and occupied paths
+	for _ in range(ctx.pick(10, 200)):
+		m = rng.randint(1, 8)
+		annot = rng.random() < 0.75
+		cont, src = rsource(rng, annot, m)
+		coll = dict(k=9, prefix='ACG', dtype='u4', sigs=[c12.rsig(rng, 9, 12, 'u4') for _ in range(m)], container=cont, compression=rng.choice(c12.COMPRESSIONS),
+		            ids=c12.rids(rng, m) if annot else None, meta=c12.rmeta(rng) if annot else None, src=src)
+		total = n_calls(coll)
+		for j in {rng.randrange(total), total - 1, rng.randint(max(total - m, 0), total - 1)}:
+			ctx.count('stream:source-container-random')
+			yield 'crash', dict(coll=coll, n=j, death=dict(mode='raise', exc=rng.choice(EXCS)))
+		ctx.count('stream:source-container-random')
+		yield 'crash', dict(coll=coll, death=dict(mode='source', at=rng.randrange(n_accesses(coll)), exc=rng.choice(EXCS)))
+		ctx.count('stream:source-container-random')
+		yield 'crash', dict(coll=coll, n=rng.choice([None, rng.randrange(total + 1)]))
+		pre = rpre(rng, 9, 'ACG', 'u4', m, weights=(0, 50, 20, 10, 10, 10))
+		for at in (rng.randint(1, total), total):
+			kill = rng.choice(KILLS)
+			ctx.count('stream:source-container-random')
+			yield 'over_kill', dict(pre=pre, coll=coll, at=at, kill=kill, **(dict(exc=rng.choice(EXCS)) if kill == 'raise' else {}))
+	# ---- a multi-megabyte signature file re-saved (re-compressed): the writer raises in the per-signature loop, fresh and occupied path
+	nsig, per = 12, 120000
+	for comp_in, comp_out in (((None, 'gzip'),) if ctx.quick else ((None, 'gzip'), ('gzip', None), ('lzf', 'lzf'))):
+		coll = dict(k=11, prefix='ATGAC', dtype='u4', sigs_np=[rng.randrange(2 ** 30), nsig, per, 4 ** 11], container='annot_list', compression=comp_out,
+		            ids=dict(kind='int', dtype='i8', vals=[500 + i for i in range(nsig)]), meta=meta, src=dict(form='hdf5', comp=comp_in, open='load', foreign=foreign))
+		total = 14 + nsig
+		# (kind crash ships the payload to the model once per batch, seconds: thorough only; quick asks the same of a fresh path through over_kill)
+		for j in ([] if ctx.quick else range(total)):
+			ctx.count('stream:source-container-large-payload')
+			yield 'crash', dict(coll=coll, n=j, short=True, death=dict(mode='raise', exc=EXCS[j % len(EXCS)]))
+		for at in ([1 + total - nsig // 2, total] if ctx.quick else []):
+			ctx.count('stream:source-container-large-payload')
+			yield 'over_kill', dict(pre=dict(form='none'), coll=coll, at=at, kill='raise', exc=EXCS[at % len(EXCS)])
+		pre = dict(form='coll', coll=dict(k=11, prefix='ATGAC', dtype='u4', sigs_np=[rng.randrange(2 ** 30), 9, per, 4 ** 11], container='annot_list',
+		                                 compression=None, ids=dict(kind='int', dtype='i8', vals=[100 + i for i in range(9)]), meta=fmeta))
+		for at in ([1 + total - nsig // 3] if ctx.quick else range(1, total + 2)):
+			ctx.count('stream:source-container-large-payload')
+			yield 'over_kill', dict(pre=pre, coll=coll, at=at, kill='sigint' if at % 2 else 'raise', exc='ENOSPC')
 
 
 # ---- what the output path holds before the write ----------------------------------------------------------------------
